@@ -3,12 +3,17 @@ from __future__ import annotations
 
 from typing import Any, Iterator
 
-CLOSE = {"scope": "endscope", "shield": "endshield", "try": "endtry", "group": "endgroup", "child": "endchild"}
+CLOSE = {"scope": "endscope", "shield": "endshield", "try": "endtry", "trye": "endtrye", "group": "endgroup",
+         "child": "endchild"}
+BLOCKS = ("shield", "try", "trye", "group", "child")
 
 
 # ------------------------------------------------------------------------------------------------
 # trees:  ("sleep", d) ("yield",) ("syield",) ("cancel", i) ("resched", i, d|None)
 #         ("scope", kind, delay|None, pre, body) ("shield", body) ("try", body) ("group", body) ("child", body)
+#         operations that fail (oracle only): ("fwait", k) ("fail",) ("join", i) ("trye", body); case field
+#         "futs": [[tick, "ok"|"err", first], …] = when / how harness future k is resolved, before or after the
+#         external cancels of the same tick
 # ------------------------------------------------------------------------------------------------
 
 def flatten(tree: list[Any]) -> list[str]:
@@ -21,7 +26,7 @@ def flatten(tree: list[Any]) -> list[str]:
                 out.append(f"scope {st[1]} {'inf' if st[2] is None else st[2]} {int(st[3])}")
                 go(st[4])
                 out.append("endscope")
-            elif op in ("shield", "try", "group", "child"):
+            elif op in BLOCKS:
                 out.append(op)
                 go(st[1])
                 out.append(CLOSE[op])
@@ -49,11 +54,11 @@ def unflatten(lines: list[str]) -> list[Any]:
                 d = None if w[2] == "inf" else int(w[2])
                 body = block("endscope")
                 out.append(("scope", w[1], d, w[3] == "1", body))
-            elif w[0] in ("shield", "try", "group", "child"):
+            elif w[0] in BLOCKS:
                 out.append((w[0], block(CLOSE[w[0]])))
             elif w[0] == "resched":
                 out.append(("resched", int(w[1]), None if w[2] == "inf" else int(w[2])))
-            elif w[0] in ("sleep", "cancel"):
+            elif w[0] in ("sleep", "cancel", "fwait", "join"):
                 out.append((w[0], int(w[1])))
             else:
                 out.append((w[0],))
@@ -68,17 +73,21 @@ def size(tree) -> int:
         n += 1
         if st[0] == "scope":
             n += size(st[4])
-        elif st[0] in ("shield", "try", "group", "child"):
+        elif st[0] in BLOCKS:
             n += size(st[1])
     return n
 
 
 class Gen:
-    def __init__(self, rng, groups: bool, tries: bool) -> None:
+    def __init__(self, rng, groups: bool, tries: bool, fails: bool = False) -> None:
         self.rng = rng
         self.budget = 0
         self.groups = groups
         self.tries = tries
+        self.fails = fails       # operations that fail: fwait / fail / join / trye (real side + oracle only)
+        self.nfut = 0
+        self.nchild = 0          # children of the innermost enclosing group of the current task (targets of `join`)
+        self.in_child = False
 
     def block(self, depth: int, nsc: int, in_child: bool = False, top: bool = False) -> list[Any]:
         rng = self.rng
@@ -107,8 +116,27 @@ class Gen:
             if r < 0.46 and self.tries:
                 return ("try", self.block(depth + 1, nsc))
             if r < 0.50 and self.groups and depth < 3:
-                kids = [("child", self.block(depth + 2, 0)) for _ in range(rng.randint(1, 2))]
-                return ("group", kids + self.block(depth + 1, nsc))
+                saved = (self.nchild, self.in_child)
+                self.nchild, self.in_child = 0, True
+                kids = []
+                for _ in range(rng.randint(1, 2)):
+                    body = self.block(depth + 2, 0)
+                    if self.fails and rng.random() < 0.6:
+                        body.insert(rng.randint(0, len(body)), ("fail",))
+                    kids.append(("child", body))
+                self.nchild, self.in_child = len(kids), saved[1]
+                body = self.block(depth + 1, nsc)
+                self.nchild = saved[0]
+                return ("group", kids + body)
+            if r < 0.60 and self.fails:
+                return ("trye", self.block(depth + 1, nsc))
+        if self.fails:
+            r = rng.random()
+            if r < 0.20:
+                self.nfut += 1
+                return ("fwait", self.nfut - 1)
+            if r < 0.40 and self.nchild:
+                return ("join", rng.randrange(self.nchild))
         r = rng.random()
         if nsc > 0 and r < 0.14:
             return ("cancel", rng.randrange(nsc))
@@ -135,10 +163,96 @@ def gen_case(rng, groups: bool) -> dict:
     return {"prog": flatten(tree), "ext": ext, "ext_last": rng.random() < 0.4}
 
 
+def _futs_for(rng, nfut: int, ext: list[int]) -> list[list]:
+    """resolution script of the harness futures: often in the very tick (= loop turn) of an external cancel"""
+    futs = []
+    for _ in range(nfut):
+        if ext and rng.random() < 0.6:
+            t = max(0, rng.choice(ext) + rng.choice([0, 0, 0, 0, 1, -1]))
+        else:
+            t = rng.randint(0, 10)
+        futs.append([t, "err" if rng.random() < 0.65 else "ok", rng.random() < 0.5])
+    return futs
+
+
+def gen_fail_case(rng, groups: bool) -> dict:
+    """random program over the full statement set, operations that fail included"""
+    g = Gen(rng, groups, tries=rng.random() < 0.25, fails=True)
+    g.budget = rng.randint(3, 14)
+    tree = g.block(0, 0, top=True)
+    r = rng.random()
+    if r < 0.2:
+        ext = []
+    elif r < 0.85:
+        ext = [rng.randint(0, 10)]
+    else:
+        ext = sorted(rng.randint(0, 12) for _ in range(2))
+    return {"prog": flatten(tree), "ext": ext, "ext_last": rng.random() < 0.4, "futs": _futs_for(rng, g.nfut, ext)}
+
+
+def gen_race_case(rng) -> dict:
+    """directed shape: a one-shot cancellation (external cancel(), or a task group cancelling its host because a child
+    failed) lands while the task is parked in a shielded await of something that FAILS (harness future / join of the
+    failing child) around the same loop turn; the error is handled inside or outside the shield (or not at all) and the
+    task goes on to further checkpoints"""
+    def simple(n):
+        return [rng.choice([("sleep", rng.choice([0, 1, 1, 2, 3])), ("yield",), ("syield",)]) for _ in range(n)]
+
+    def around(wait):
+        k = rng.randrange(4)
+        tail = simple(rng.randint(0, 2))
+        if k == 0:
+            return [("trye", [("shield", [wait] + tail)])]
+        if k == 1:
+            return [("shield", [("trye", [wait])] + tail)]
+        if k == 2:
+            return [("trye", [("shield", [("shield", [wait])] + tail)])]
+        return [("shield", [wait] + tail)]
+
+    suffix = [rng.choice([("sleep", rng.choice([0, 1, 2, 3])), ("yield",)]) for _ in range(rng.randint(1, 3))]
+    if rng.random() < 0.3:
+        suffix = [("shield", simple(1))] + suffix
+    prefix = simple(rng.randint(0, 2))
+    ext_last = rng.random() < 0.4
+    if rng.random() < 0.65:
+        core = around(("fwait", 0))
+        tree = prefix + core + suffix
+        w = rng.random()
+        if w < 0.2:
+            tree = prefix + [("scope", rng.choice("mt"), rng.choice([None, 9, 12]), False, core + suffix[:1])] + suffix[1:]
+        elif w < 0.3:
+            tree = [("group", [("child", simple(rng.randint(1, 2)))] + tree)]
+        t = rng.randint(1, 7)
+        ext = [t] if rng.random() < 0.9 else sorted([t, rng.randint(0, 9)])
+        dt = rng.choice([0, 0, 0, 0, 0, 1, 1, -1, 2])
+        futs = [[max(0, t + dt), "err" if rng.random() < 0.8 else "ok", rng.random() < 0.5]]
+        return {"prog": flatten(tree), "ext": ext, "ext_last": ext_last, "futs": futs}
+    # task group: a child fails, the body waits for it under ignore_cancellation
+    kid = simple(rng.randint(0, 2))
+    if rng.random() < 0.8:
+        kid = kid + [("fail",)]
+    else:
+        kid = kid + [("scope", "t", rng.choice([0, 1, 2]), False, [("sleep", 9)])]
+    kids = [("child", kid)]
+    if rng.random() < 0.3:
+        kids.insert(rng.randint(0, 1), ("child", simple(rng.randint(1, 2))))
+    target = next(i for i, k in enumerate(kids) if k[1] is kid)
+    body = prefix + around(("join", target)) + suffix
+    tree = [("group", kids + body)] + simple(rng.randint(0, 1))
+    ext = [rng.randint(0, 8)] if rng.random() < 0.2 else []
+    return {"prog": flatten(tree), "ext": ext, "ext_last": ext_last, "futs": []}
+
+
 def generate(rng, tier: str, boost: int) -> Iterator[dict]:
     n = (6000 if tier == "quick" else 120000) * boost
     for i in range(n):
         yield gen_case(rng, groups=(i % 8 == 7))
+    # operations that fail (no Lean counterpart: judged by the oracle only)
+    for i in range(n // 4):
+        if i % 2:
+            yield gen_race_case(rng)
+        else:
+            yield gen_fail_case(rng, groups=(i % 4 == 0))
     if tier != "quick":
         yield from exhaustive_small()
 
@@ -189,8 +303,21 @@ def exhaustive_small() -> Iterator[dict]:
 def shrink(case: dict) -> Iterator[dict]:
     tree = unflatten(case["prog"])
     ext = case.get("ext", [])
+    futs = case.get("futs") or []
     for i in range(len(ext)):
         yield {**case, "ext": ext[:i] + ext[i + 1:]}
+    if futs:
+        used = {st_k for st_k in _fut_refs(tree)}
+        if len(futs) > (max(used) + 1 if used else 0):
+            yield {**case, "futs": futs[:max(used) + 1 if used else 0]}
+        # all scripted times one tick earlier (keeps a cancel and a failure in the same loop turn)
+        if all(t > 0 for t in ext) and all(f[0] > 0 for f in futs):
+            yield {**case, "ext": [t - 1 for t in ext], "futs": [[f[0] - 1] + list(f[1:]) for f in futs]}
+        for i, f in enumerate(futs):
+            if f[0] > 0:
+                yield {**case, "futs": futs[:i] + [[f[0] - 1] + list(f[1:])] + futs[i + 1:]}
+            if not f[2]:
+                yield {**case, "futs": futs[:i] + [[f[0], f[1], True]] + futs[i + 1:]}
     for t in variants(tree):
         if t:
             yield {**case, "prog": flatten(t)}
@@ -201,20 +328,33 @@ def shrink(case: dict) -> Iterator[dict]:
         yield {**case, "ext_last": False}
 
 
-def _refs_ok(tree, nsc=0) -> bool:
+def _fut_refs(tree) -> Iterator[int]:
+    for st in tree:
+        if st[0] == "fwait":
+            yield st[1]
+        elif st[0] == "scope":
+            yield from _fut_refs(st[4])
+        elif st[0] in BLOCKS:
+            yield from _fut_refs(st[1])
+
+
+def _refs_ok(tree, nsc=0, nchild=0) -> bool:
     for st in tree:
         if st[0] in ("cancel", "resched") and st[1] >= nsc:
             return False
-        if st[0] == "scope" and not _refs_ok(st[4], nsc + 1):
+        if st[0] == "join" and st[1] >= nchild:
             return False
-        if st[0] in ("shield", "try") and not _refs_ok(st[1], nsc):
+        if st[0] == "scope" and not _refs_ok(st[4], nsc + 1, nchild):
+            return False
+        if st[0] in ("shield", "try", "trye") and not _refs_ok(st[1], nsc, nchild):
             return False
         if st[0] == "group":
+            n = sum(1 for k in st[1] if k[0] == "child")
             for k in st[1]:
                 if k[0] == "child":
-                    if not _refs_ok(k[1], 0):
+                    if not _refs_ok(k[1], 0, 0):
                         return False
-                elif not _refs_ok([k], nsc):
+                elif not _refs_ok([k], nsc, n):
                     return False
     return True
 
@@ -241,7 +381,7 @@ def _variants(tree) -> Iterator[list]:
             for b in _variants(st[4]):
                 if b:
                     yield pre + [("scope", st[1], st[2], st[3], b)] + post
-        elif op in ("shield", "try"):
+        elif op in ("shield", "try", "trye"):
             yield pre + list(st[1]) + post
             for b in _variants(st[1]):
                 if b:
